@@ -20,7 +20,7 @@ GeneSets == {<<[cls |-> "ens", id |-> 1], [cls |-> "ens", id |-> 2]>>,
              <<[cls |-> "unk", id |-> 1], [cls |-> "unk", id |-> 2]>>}          \* nothing can be mapped
 Plain == <<[cls |-> "ens", id |-> 1], [cls |-> "ens", id |-> 2]>>
 Init == \/ /\ mode = "range" /\ lo \in Lattice /\ hi \in Lattice /\ Leq(lo, hi)
-           /\ genes = Plain /\ layerIsX = TRUE /\ round = TRUE /\ integral = FALSE /\ phase = "new"
+           /\ genes = Plain /\ layerIsX \in BOOLEAN /\ round = TRUE /\ integral = FALSE /\ phase = "new"
            /\ dupCells = FALSE /\ emptyName = FALSE
         \/ /\ mode = "reject" /\ lo = Zero /\ hi = [s |-> 1, k |-> 7, d |-> -1]
            /\ genes = Plain /\ layerIsX \in BOOLEAN /\ round \in BOOLEAN /\ integral = TRUE /\ phase = "new"
